@@ -36,6 +36,9 @@ Check (C02_nonce_discipline :
   forall e D r, wf_env e -> Inv2 e D r -> forall j, j < r_ctr r ->
   exists it p, nthI (e_items e) j = Some it /\ nthP (e_plains e) j = Some p /\
                i_hdr it = i_blen it /\ i_blen it = p + TAG /\ i_auth it = Some j).
+Check (C02_nonce_step :
+  forall e b sc r x r' sc', poll_read e b sc r = (x, r', sc') ->
+  r_ctr r' = r_ctr r \/ (r_ctr r' = r_ctr r + 1 /\ exists n pos, x = RReady n pos)).
 Check (C02_wire_grows :
   forall e e' D r, wf_env e -> ext e e' -> Inv2 e D r -> Inv2 e' D r).
 Check (C02_read_pending_has_waker :
